@@ -523,23 +523,34 @@ func suiteSession(h *H) {
 			tag        string
 			src, dst   sTree
 			opts       []string
-			stay, gone []string // destination paths that must survive / must be removed
+			stay, gone []string          // destination paths that must survive / must be removed
+			want       map[string]string // content a destination file must have afterwards
 		}
 		f := func(c string) sNode { return sNode{kind: 'f', content: []byte(c), perm: 0o644, mtime: oldT} }
 		dnode := sNode{kind: 'd', perm: 0o755, mtime: oldT}
 		fixtures := []fx{
 			{"protected-dirlink", sTree{"a": f("a")}, sTree{"a": f("a"), "cache": sNode{kind: 'l', target: "zdir"}, "cache~after": f("x"), "zdir": dnode, "zdir/inner": f("y"), "zz": f("z")},
-				[]string{"-a", "--delete", "--exclude=cache"}, []string{"a", "cache"}, []string{"cache~after", "zdir", "zz"}},
+				[]string{"-a", "--delete", "--exclude=cache"}, []string{"a", "cache"}, []string{"cache~after", "zdir", "zz"}, nil},
 			{"protected-file", sTree{"a": f("a")}, sTree{"a": f("a"), "cache": f("c"), "cache~after": f("x"), "zz": f("z")},
-				[]string{"-a", "--delete", "--exclude=cache"}, []string{"a", "cache"}, []string{"cache~after", "zz"}},
+				[]string{"-a", "--delete", "--exclude=cache"}, []string{"a", "cache"}, []string{"cache~after", "zz"}, nil},
 			{"protected-dir", sTree{"a": f("a")}, sTree{"a": f("a"), "cache": dnode, "cache/in": f("c"), "cache~after": f("x"), "zz": f("z")},
-				[]string{"-a", "--delete", "--exclude=cache"}, []string{"a", "cache", "cache/in"}, []string{"cache~after", "zz"}},
+				[]string{"-a", "--delete", "--exclude=cache"}, []string{"a", "cache", "cache/in"}, []string{"cache~after", "zz"}, nil},
 			{"protected-below-extraneous", sTree{"a": f("a")}, sTree{"a": f("a"), "keep.db": f("top"), "olddir": dnode, "olddir/keep.db": f("k"), "olddir/other": f("o")},
-				[]string{"-a", "--delete", "--exclude=keep.db"}, []string{"a", "keep.db", "olddir/keep.db"}, []string{"olddir/other"}},
+				[]string{"-a", "--delete", "--exclude=keep.db"}, []string{"a", "keep.db", "olddir/keep.db"}, []string{"olddir/other"}, nil},
+			// options that decide on the receiving side whether a file is requested: they must arrive there whoever sends
+			{"ignore-times", sTree{"f": sNode{kind: 'f', content: []byte("NEW!"), perm: 0o644, mtime: oldT}}, sTree{"f": sNode{kind: 'f', content: []byte("OLD!"), perm: 0o644, mtime: oldT}},
+				[]string{"-rt", "-I"}, []string{"f"}, nil, map[string]string{"f": "NEW!"}},
+			{"quick-check", sTree{"f": sNode{kind: 'f', content: []byte("NEW!"), perm: 0o644, mtime: oldT}}, sTree{"f": sNode{kind: 'f', content: []byte("OLD!"), perm: 0o644, mtime: oldT}},
+				[]string{"-rt"}, []string{"f"}, nil, map[string]string{"f": "OLD!"}},
+			{"checksum", sTree{"f": sNode{kind: 'f', content: []byte("NEW!"), perm: 0o644, mtime: oldT}}, sTree{"f": sNode{kind: 'f', content: []byte("OLD!"), perm: 0o644, mtime: oldT}},
+				[]string{"-rt", "-c"}, []string{"f"}, nil, map[string]string{"f": "NEW!"}},
+			// a directory-only rule does not protect a file of that name: whoever sends, and whoever applies the rule
+			{"dironly-rule-and-file", sTree{"a": f("a")}, sTree{"a": f("a"), "cache": f("a file, not a directory"), "zdir": dnode, "zdir/cache": f("nested file")},
+				[]string{"-a", "--delete", "--exclude=cache/"}, []string{"a"}, []string{"cache", "zdir"}, nil},
 			{"rule-names-root", sTree{"keep": f("k"), "src": f("nested same name"), "other": dnode, "other/file": f("o")}, sTree{},
-				[]string{"-a", "--exclude=src"}, []string{"keep", "other", "other/file"}, []string{"src"}},
+				[]string{"-a", "--exclude=src"}, []string{"keep", "other", "other/file"}, []string{"src"}, nil},
 			{"dironly-rule-names-root", sTree{"keep": f("k"), "src": dnode, "src/x": f("x"), "zlast": f("z")}, sTree{},
-				[]string{"-a", "--exclude=src/"}, []string{"keep", "zlast"}, []string{"src", "src/x"}},
+				[]string{"-a", "--exclude=src/"}, []string{"keep", "zlast"}, []string{"src", "src/x"}, nil},
 		}
 		for _, fxr := range fixtures {
 			for _, arr := range []byte("LPU") {
@@ -571,9 +582,17 @@ func suiteSession(h *H) {
 					if _, ok := after[pth]; ok && v == "" {
 						if _, wasThere := fxr.dst[pth]; wasThere {
 							v = fmt.Sprintf("FAIL[C09] extraneous entry %q survived --delete next to a protected entry (options %v)", pth, fxr.opts)
+							if fxr.tag == "dironly-rule-and-file" {
+								v += " || FAIL[C14] the rule reached the deleting side in another form than the user gave it || FAIL[C13]"
+							}
 						} else {
 							v = fmt.Sprintf("FAIL[C13] excluded entry %q was transferred (options %v)", pth, fxr.opts)
 						}
+					}
+				}
+				for pth, c := range fxr.want {
+					if g, ok := after[pth]; ok && string(g.content) != c && v == "" {
+						v = fmt.Sprintf("FAIL[C12] with options %v %q holds %q afterwards, the update rule says %q (arrangement %c: the option did not reach the side that decides, or was not honoured)", fxr.opts, pth, g.content, c, arr)
 					}
 				}
 				h.emit(fmt.Sprintf("!session-fixture seed=%d %s arr=%c", h.seed, fxr.tag, arr), strings.SplitN(out, ":", 2)[0], v, true)
